@@ -468,6 +468,11 @@ class Executor(object):
         o.tag["constant"] = g.constant
         o.tag["symbol"] = name
         self.globals[name] = o
+        if g.init is None and ir.resolve(g.ty).kind == "ptr":
+            # an external pointer variable (e.g. PyExc_TypeError): it points to one opaque object named after it
+            tgt = self.new_obj("extern:*" + name, 1 << 16, "extern")
+            tgt.tag["symbol"] = name
+            o.cells[0] = (8, Ptr(tgt, 0))
         if g.init is not None:
             saved = o.tag["constant"]
             o.tag["constant"] = False
